@@ -116,7 +116,7 @@ impl ValObs for HashMap<String, u8> {
         ["(x = 1)", "()", "(x = 1, y = 2)"][i % 3].into()
     }
     fn bad(i: usize) -> String {
-        ["(x = 300, \"lit\")", "(x = 1, x = 2)", " = 5", "(q = 400)"][i % 4].into()
+        ["(a = 300)", "(x = 300, \"lit\")", "(b = 1, b = 2)", " = 5", "(q = 400, a = 500)", "(x = 1, x = 2)"][i % 6].into()
     }
 }
 
@@ -179,7 +179,20 @@ fn model<K: KeyObs, V: ValObs>(items: &[NestedMeta]) -> Out {
             NestedMeta::Meta(inner) => {
                 let path = inner.path();
                 let val = V::from_meta(inner);
-                let val_leaves = |e: Error| -> Vec<String> { e.at(joined(path)).flatten().into_iter().map(|x| x.to_string()).collect() };
+                // the value's own leaves, located under the key; the path is composed here as text,
+                // not with `Error::at`, so that the location logic is not its own oracle
+                let val_leaves = |e: Error| -> Vec<String> {
+                    e.flatten()
+                        .into_iter()
+                        .map(|x| {
+                            let s = x.to_string();
+                            match s.rfind(" at ") {
+                                Some(i) => format!("{} at {}/{}", &s[..i], joined(path), &s[i + 4..]),
+                                None => format!("{s} at {}", joined(path)),
+                            }
+                        })
+                        .collect()
+                };
                 match K::ident_of(path) {
                     None => {
                         leaves.push(Error::custom("Key must be an identifier").to_string());
@@ -271,8 +284,24 @@ pub fn check_text(inst: &Inst, twin: Option<&Inst>, text: &str, t: &mut Tally) {
     let items = match parse_items(text) {
         Ok(i) => i,
         Err(e) => {
-            t.hit("generator_unparseable");
-            t.violate(Violation { key: format!("C14 machinery unparseable `{text}`"), what: format!("machinery: `{text}` does not parse: {e}"), case: json!({"inst": inst.name, "text": text}), detail: json!({}) });
+            // is the text a comma-separated list of literals (incl. negative numbers) and meta items?
+            struct Piece;
+            impl syn::parse::Parse for Piece {
+                fn parse(input: syn::parse::ParseStream) -> syn::Result<Self> {
+                    if input.peek(syn::Lit) || (input.peek(syn::Token![-]) && input.peek2(syn::Lit)) {
+                        input.parse::<syn::Lit>().map(|_| Piece)
+                    } else {
+                        input.parse::<syn::Meta>().map(|_| Piece)
+                    }
+                }
+            }
+            let independent = syn::parse::Parser::parse_str(syn::punctuated::Punctuated::<Piece, syn::Token![,]>::parse_terminated, text);
+            if independent.is_ok() {
+                t.violate(Violation { key: format!("C14 {} `{text}` :: list rejected: {e}", inst.name), what: format!("{} <- ({text}): the item list itself is rejected (`{e}`) although every member is a literal or a meta item", inst.name), case: json!({"inst": inst.name, "text": text}), detail: json!({}) });
+            } else {
+                t.hit("generator_unparseable");
+                t.violate(Violation { key: format!("C14 machinery unparseable `{text}`"), what: format!("machinery: `{text}` does not parse: {e}"), case: json!({"inst": inst.name, "text": text}), detail: json!({}) });
+            }
             return;
         }
     };
@@ -322,7 +351,7 @@ pub fn check_text(inst: &Inst, twin: Option<&Inst>, text: &str, t: &mut Tally) {
 fn symbol_text(inst: &Inst, sym: usize, pos: usize) -> String {
     const KEYS: [&str; 4] = ["a", "b", "a::b", "::a"];
     if sym == 8 {
-        return ["\"lit\"", "5", "true"][pos % 3].to_string();
+        return ["\"lit\"", "-1", "true", "5", "-1.5"][pos % 5].to_string();
     }
     let key = KEYS[sym / 2];
     let val = if sym % 2 == 0 { (inst.good)(pos) } else { (inst.bad)(pos) };
